@@ -14,6 +14,7 @@ import (
 	"time"
 
 	"github.com/DataDog/datadog-traceroute/cache"
+	"github.com/DataDog/datadog-traceroute/cmd"
 	"github.com/DataDog/datadog-traceroute/publicip"
 	"github.com/DataDog/datadog-traceroute/result"
 	"github.com/DataDog/datadog-traceroute/reversedns"
@@ -46,6 +47,7 @@ type RTScn struct {
 	PublicIP   string `json:"public_ip"` // "", ok, fail, slow
 	SkipPrivate bool  `json:"skip_private"`
 	HTTP       bool   `json:"http"` // go through server.TracerouteHandler
+	CLI        bool   `json:"cli,omitempty"` // go through the command-line front end (cmd.rootCmd, in-process); fixed: first TTL 1, send delay 50 ms, no public IP
 	// TrueSpelling: how an enabled boolean is written in the HTTP query ("" = "true"); any spelling strconv.ParseBool reads as true
 	TrueSpelling string `json:"true_spelling,omitempty"`
 	RawQuery   string `json:"raw_query,omitempty"`
@@ -355,7 +357,34 @@ func runRT(cfg vsched.Config, sc *RTScn, twice bool) *RTResult {
 		cfg.MaxVirtual = 3 * time.Hour
 	}
 	out.X = vsched.Run(cfg, n, func() {
-		if sc.HTTP {
+		if sc.CLI {
+			argv := []string{"--proto", sc.Protocol, "--port", fmt.Sprint(port), "--traceroute-queries", fmt.Sprint(sc.Queries), "--e2e-queries", fmt.Sprint(sc.E2e),
+				"--max-ttl", fmt.Sprint(sc.MaxTTL), "--timeout", fmt.Sprint(sc.TimeoutMs)}
+			if sc.Method != "" {
+				argv = append(argv, "--tcp-method", sc.Method)
+			}
+			if sc.WantV6 {
+				argv = append(argv, "--ipv6")
+			}
+			if sc.ReverseDNS {
+				argv = append(argv, "--reverse-dns")
+			}
+			if sc.SkipPrivate {
+				argv = append(argv, "--skip-private-hops")
+			}
+			argv = append(argv, "--", sc.Hostname)
+			stdout, err := cmd.VerifRun(argv)
+			out.Body = []byte(stdout)
+			out.Err = err
+			if err == nil {
+				var res result.Results
+				if jerr := json.Unmarshal(out.Body, &res); jerr == nil {
+					out.Res = &res
+				} else {
+					out.Err = fmt.Errorf("the command succeeded but did not print the JSON document: %v", jerr)
+				}
+			}
+		} else if sc.HTTP {
 			q := sc.RawQuery
 			if q == "" {
 				vals := url.Values{}
